@@ -106,7 +106,7 @@ func invariantIn(v ssa.Value, body map[*ssa.BasicBlock]bool, seen map[ssa.Value]
 					return true
 				}
 				if fv, ok := y.X.(*ssa.FreeVar); ok {
-					return capturedNeverReassigned(fv)
+					return capturedNeverReassigned(fv) || capturedNotWrittenIn(fv, body)
 				}
 				if al, ok := y.X.(*ssa.Alloc); ok {
 					for b := range body {
@@ -337,6 +337,64 @@ var acyclicLinks = map[string]string{
 
 var _ = types.Typ
 var _ = strings.Contains
+
+// capturedNotWrittenIn: the captured variable is shared only between this function literal (typically the body of
+// a range-over-func loop) and the function that made it, whose code does not run while the literal does; inside
+// the literal it is assigned only outside the loop in question, and its address goes nowhere else.
+func capturedNotWrittenIn(fv *ssa.FreeVar, body map[*ssa.BasicBlock]bool) bool {
+	fn := fv.Parent()
+	parent := fn.Parent()
+	if parent == nil || fv.Referrers() == nil {
+		return false
+	}
+	for _, ref := range *fv.Referrers() {
+		switch r := ref.(type) {
+		case *ssa.UnOp, *ssa.DebugRef:
+		case *ssa.Store:
+			if r.Addr != ssa.Value(fv) || body[r.Block()] {
+				return false
+			}
+		default:
+			return false
+		}
+	}
+	idx := -1
+	for i, f := range fn.FreeVars {
+		if f == fv {
+			idx = i
+		}
+	}
+	var cell ssa.Value
+	n := 0
+	for _, b := range parent.Blocks {
+		for _, in := range b.Instrs {
+			if mc, ok := in.(*ssa.MakeClosure); ok && mc.Fn == ssa.Value(fn) && idx >= 0 && idx < len(mc.Bindings) {
+				cell = mc.Bindings[idx]
+				n++
+			}
+		}
+	}
+	al, ok := cell.(*ssa.Alloc)
+	if !ok || n != 1 || al.Referrers() == nil {
+		return false
+	}
+	for _, ref := range *al.Referrers() {
+		switch r := ref.(type) {
+		case *ssa.UnOp, *ssa.DebugRef:
+		case *ssa.Store:
+			if r.Addr != ssa.Value(al) {
+				return false
+			}
+		case *ssa.MakeClosure:
+			if r.Fn != ssa.Value(fn) {
+				return false // another literal shares the variable and could be called from the loop
+			}
+		default:
+			return false
+		}
+	}
+	return true
+}
 
 // capturedNeverReassigned: the variable behind a closure's free variable is a spilled parameter (or a local
 // initialised once) of the enclosing function that no function sharing it assigns again: its value is the
